@@ -54,6 +54,8 @@ INITS = [
     {'structs': [TAB1], 'nrows': [1], 'pairs': [], 'other': [TAB1_O]},
     {'structs': [TAB2], 'nrows': [1], 'pairs': [], 'other': [TAB2_O]},
     {'structs': [TAB1, TAB2], 'nrows': [1, 0], 'pairs': [['mjd', '54579'], ['alpha', 'beta gamma']], 'other': [TAB1_O, TAB2_O]},
+    # the same content as the first, but the pre-existing file has CRLF line ends (byte-for-byte preservation of earlier lines)
+    {'structs': [TAB1], 'nrows': [1], 'pairs': [['mjd', '54579']], 'other': [TAB1_O], 'eol': '\r\n'},
 ]
 F0 = 'orig.par'
 CANON_LAYOUT = {'eol': '\n', 'cmt': 'header', 'trail': False, 'blank': 'blocks', 'sep': 'one', 'cont': 'none', 'sstyle': 'bare',
@@ -162,9 +164,9 @@ class World:
     def __init__(self, init, raw, d):
         self.d = d
         self.model = Model(init, raw)
-        text = c02.render(self.model.doc(), CANON_LAYOUT)
-        with open(os.path.join(d, F0), 'w') as f:
-            f.write(text)
+        text = c02.render(self.model.doc(), dict(CANON_LAYOUT, eol=init.get('eol', '\n')))
+        with open(os.path.join(d, F0), 'wb') as f:
+            f.write(text.encode('ascii'))
         with open(os.path.join(d, OTHER), 'w') as f:
             f.write(c02.render(self.model.doc(self.model.files[OTHER]), CANON_LAYOUT))
         self.y = yanny(os.path.join(d, F0), raw=raw)
@@ -255,10 +257,10 @@ class World:
 
 
 def obj_snapshot(y):
-    snap = [os.path.basename(y.filename), y._contents, list(y.pairs()), [y[k] for k in y.pairs()], list(y.tables())]
+    snap = [os.path.basename(y.filename), y._contents, list(y.pairs()), [repr(y[k]) for k in y.pairs()], list(y.tables())]
     for t in y.tables():
         tab = y[t]
-        snap.append((repr(tab.dtype), tab.tobytes()) if isinstance(tab, np.ndarray) else copy.deepcopy(tab))
+        snap.append((repr(tab.dtype), tab.tobytes()) if isinstance(tab, np.ndarray) else repr(tab))
     return snap
 
 
@@ -392,7 +394,7 @@ def _transition(acc, w, ii, raw, hist, op):
 
 def finish(tier, cov):
     return {'states': cov['distinct_nontrivial'], 'max_depth': DEPTH[tier],
-            'initial_states': 6, 'operations_in_menu': len(ops_menu(2))}
+            'initial_states': 2 * len(INITS), 'operations_in_menu': len(ops_menu(2))}
 
 
 def replay(case):
